@@ -115,6 +115,8 @@ def candidate_tokens(text):
     for rx, rep in (_SUBS[0], _SUBS[2]):
         v = "\n".join(rx.sub(rep, ln) for ln in v.split("\n"))
     variants.append(v)
+    # genfromtxt drops everything after '#'
+    variants.append("\n".join(ln.split("#")[0] for ln in text.split("\n")))
     for var in variants:
         for t in re.split(r"[\s,\"':]+", var):
             if t:
